@@ -145,7 +145,7 @@ func crashApply(w *drv.World, m *model.Store, o crashOp) (drv.Resp, model.Exp) {
 	case "delbucket":
 		return w.Do(drv.Req{Method: "DELETE", Path: "/" + o.b}), m.DeleteBucket(o.b)
 	case "put", "putbig":
-		meta := map[string]string{"x-amz-meta-a": "m" + strconv.Itoa(len(o.body))}
+		meta := map[string]string{"x-amz-meta-a": "m" + strconv.Itoa(len(o.body)) + o.body[:1]}
 		return w.Do(drv.Req{Method: "PUT", Path: "/" + o.b + "/" + o.k, Body: []byte(o.body), Header: drv.H("x-amz-meta-a", meta["x-amz-meta-a"])}), m.Put(o.b, o.k, []byte(o.body), meta)
 	case "delete":
 		return w.Do(drv.Req{Method: "DELETE", Path: "/" + o.b + "/" + o.k}), m.Delete(o.b, o.k)
@@ -233,6 +233,59 @@ func storeIntegrity(w *drv.World) string {
 		}
 	}
 	return ""
+}
+
+// tornDetail describes the object an interrupted put/copy left behind, so that
+// the recorded finding (in-place overwrite) is identified by what it produces
+// and any other outcome has a signature of its own.
+func tornDetail(w *drv.World, o crashOp, pre, post *model.Store) string {
+	b, k := o.b, o.k
+	if o.kind == "copy" {
+		b, k = o.b2, o.k2
+	}
+	v := w.Get(b, k)
+	oldO, newO := pre.Get(b, k), post.Get(b, k)
+	got := string(v.Body)
+	body := "other"
+	switch {
+	case v.Status == 404:
+		body = "absent"
+	case v.Status != 200:
+		body = "status-" + strconv.Itoa(v.Status)
+	case newO != nil && got == string(newO.Body):
+		body = "new"
+	case oldO != nil && got == string(oldO.Body):
+		body = "old"
+	case len(got) == 0:
+		body = "empty"
+	case newO != nil && strings.HasPrefix(string(newO.Body), got):
+		body = "prefix-of-new"
+	case newO != nil && oldO != nil && len(got) == len(oldO.Body):
+		n := 0
+		for n < len(got) && n < len(newO.Body) && got[n] == newO.Body[n] {
+			n++
+		}
+		if got[n:] == string(oldO.Body[n:]) {
+			body = "new-head+old-tail"
+		}
+	}
+	meta := "other"
+	mv, has := v.Meta["x-amz-meta-a"]
+	switch {
+	case v.Status != 200:
+		meta = "-"
+	case !has:
+		meta = "none"
+	case newO != nil && mv == newO.Meta["x-amz-meta-a"]:
+		meta = "new"
+	case oldO != nil && mv == oldO.Meta["x-amz-meta-a"]:
+		meta = "old"
+	}
+	if (body == "empty" || body == "prefix-of-new" || body == "new") && (meta == "old" || meta == "none" || meta == "new") {
+		// exactly what create/truncate, write, then save the record leaves at its cut points
+		return "truncated-or-partly-written-file-or-record-not-yet-saved"
+	}
+	return "body=" + body + ",meta=" + meta
 }
 
 type crashJobResult struct {
@@ -476,6 +529,9 @@ func c15RunHistory(kind drv.Kind, alpha []crashOp, hist []int, res *crashJobResu
 				}
 			}
 			v.Sig = sig("C15", class, "crash", "in-flight="+inflight, what)
+			if what == "in-flight-op-partially-applied" && (op.kind == "put" || op.kind == "putbig" || op.kind == "copy") && lbl+1 < len(models) {
+				v.Sig = sig("C15", class, "crash", "in-flight="+inflight, what, tornDetail(rw, op, models[lbl], models[lbl+1]))
+			}
 			v.Msg = fmt.Sprintf("after a kill during %s the reopened store matches neither the state before the operation (%s) nor after it (%s)", inflight, dPre, dPost)
 			report(&v)
 		}
